@@ -141,7 +141,13 @@ def run_tlc(module: str, cfg: str | Path, work: Path, *, workers: int | str = "a
         e.update({k: str(v) for k, v in env.items()})
     t0 = time.time()
     try:
-        p = subprocess.run(cmd, cwd=str(spec_dir), env=e, capture_output=True, text=True, timeout=timeout)
+        for attempt in range(3):
+            p = subprocess.run(cmd, cwd=str(spec_dir), env=e, capture_output=True, text=True, timeout=timeout)
+            if p.returncode not in (-9, 137):
+                break
+            # killed from outside (the kernel's OOM killer when other jobs share the machine): wait and try again
+            shutil.rmtree(meta, ignore_errors=True)
+            time.sleep(45 * (attempt + 1))
     except subprocess.TimeoutExpired as ex:
         raise Machinery(f"TLC timed out after {timeout}s on {module}") from ex
     finally:
